@@ -30,9 +30,11 @@ CLAIMED = {
              'Paragraph: the block tokenizer of the parser model returns exactly one quote holding the tokenization of the lines (setext headings off, as '
              'Quote.read does), and the whole-document form adds the link definitions and the line numbers; proved through a first-character analysis of '
              'the regex engine (sound for every pattern) evaluated by the kernel on the patterns regenerated from /repo. The statement at full strength is '
-             'refuted in the model (witness Foo / ---): known finding. LIST: kernel-checked on every text over a 9-symbol alphabet up to length 4 for four '
-             'marker/padding pairs; beyond that decided on the implementation by the oracle. Model tied to the code by X-doc on the texts and on every embedding.',
-        note='PARTIAL for the list law (bounded kernel sweep + oracle). Trusted: Coq kernel incl. vm_compute, extraction, translators gen_regex/gen_config/gen_tables, '
+             'refuted in the model (witness Foo / ---): known finding. LIST: theorem over ALL markers (+ - * and 1-9 digits with . or )), padding 1-4, ALL structured tab-free texts, fuels and '
+             'configurations (minus thematic-break coincidences): exactly one single-item list holding the tokenization of the text; the three list patterns enter by '
+             'their exact regenerated shape and are evaluated with verified lemmas on greedy repetition in the matcher; a bounded kernel sweep through the inline phase '
+             'is kept beside it. Model tied to the code by X-doc on the texts and on every embedding.',
+        note='Both laws are unbounded at the block-tokenizer level (the inline phase is applied to the same buffers on both sides). Trusted: Coq kernel incl. vm_compute, extraction, translators gen_regex/gen_config/gen_tables, '
              'the hand-written parser model (correspondence-checked). Texts with tabs, with a blank last line, or (list law) with lines of spaces only are outside the quantifier. '
              'One genuine defect repaired (fix: 3e6741d).',
         technique='Coq proof (induction over lines; verified regex first-character analysis with reflective side conditions on regenerated patterns; bounded kernel sweep) '
